@@ -232,13 +232,13 @@ Fixpoint bspec_o (sigma : list val -> list val) (n : bnode) (bs : list env) : li
   end.
 
 (* what the staged API demands of order-sensitive operators (IsOrdered bounds, commutativity
-   obligations); sort over an unordered input is excluded only to keep the proof short *)
+   obligations); sort() accepts any input order *)
 Fixpoint bwf (n : bnode) : Prop :=
   match n with
   | BBatch _ => True
-  | BWeaken x | BMap _ x | BFilter _ x | BFlatMap _ x | BUnique x | BDefer x => bwf x
+  | BWeaken x | BMap _ x | BFilter _ x | BFlatMap _ x | BUnique x | BDefer x | BSort x => bwf x
   | BChain x y | BJoin x y | BCross x y | BAntiJoin x y => bwf x /\ bwf y
-  | BSort x | BEnumerate x | BGen _ _ x | BFoldKeyed _ _ x | BReduceKeyed _ x => bord x = true /\ bwf x
+  | BEnumerate x | BGen _ _ x | BFoldKeyed _ _ x | BReduceKeyed _ x => bord x = true /\ bwf x
   | BCrossSingleton x s => bord s = true /\ bwf x /\ bwf s
   | BFold _ acc x => bwf x /\ (bord x = false -> fold_comm acc)
   | BReduce f x => bwf x /\ (bord x = false -> comm_assoc f)
